@@ -163,7 +163,7 @@ theorem decBlockDef_enc (b : BlockDef) (ok : BlockOk b) (e rest : Bytes) (he : e
   rw [readBE_append 8 _ _ h7]; simp only [ok_bind]
   rw [readBE_append 4 _ _ ok.il]; simp only [ok_bind]
   have hu : b.tiles.off + b.tiles.len < U64 := ok.tl
-  simp only [hu, g2, g4, g5, g6, decide_true, Bool.and_self, must_true, ok_bind, ok.glob, ensure_true, pure_eq]
+  simp only [hu, g2, g4, g5, g6, decide_true, ok_bind, ok.glob, ensure_true, pure_eq]
   have : b.index = ⟨b.tiles.off + b.tiles.len, b.index.len⟩ := by
     cases hb : b.index with
     | mk o l => have := ok.idx; rw [hb] at this; simp at this; simp [this]
